@@ -355,8 +355,9 @@ func runC12(a runArgs) error {
 	rng := NewRng(a.seed)
 	tr := newPoolTracker()
 	pool.VerifSetTracker(tr)
+	pool.VerifSetUseTracker(tr)
 	activeTracker = tr
-	defer func() { activeTracker = nil; pool.VerifSetTracker(nil) }()
+	defer func() { activeTracker = nil; pool.VerifSetTracker(nil); pool.VerifSetUseTracker(nil) }()
 
 	if a.only != "" {
 		c12Scenario(e, tr, a.only)
